@@ -122,16 +122,32 @@ class PROP(Prop):
                     ops, exp = [], []
                     for i, sc in enumerate(scen):
                         val = rng.randrange(65536)
-                        req = ("RHR", rng.randrange(65536), 1)
-                        fr = cligen.frame(proto, i, slave, mb.spec_rsp_pdu(("RHR", [val]))).hex()
+                        # the generic call and every typed method alike (each of them has to run under the context's timeout)
+                        kind = rng.choice(["call", "call", "RHR", "RIR", "WSR", "WSC", "MWR", "WMR", "RC"]) if "late" not in scen else "call"
+                        if kind in ("call", "RHR"):
+                            req, rsp, ok = ("RHR", rng.randrange(65536), 1), ("RHR", [val]), ("OK:RHR:%d" % val if kind == "call" else "W:%d" % val)
+                        elif kind == "RIR":
+                            req, rsp, ok = ("RIR", rng.randrange(65536), 1), ("RIR", [val]), "W:%d" % val
+                        elif kind == "WSR":
+                            req, rsp, ok = ("WSR", 7, val), ("WSR", 7, val), "U"
+                        elif kind == "WSC":
+                            req, rsp, ok = ("WSC", 7, True), ("WSC", 7, True), "U"
+                        elif kind == "MWR":
+                            req, rsp, ok = ("MWR", 7, val, 3), ("MWR", 7, val, 3), "U"
+                        elif kind == "WMR":
+                            req, rsp, ok = ("WMR", 7, [val, 2]), ("WMR", 7, 2), "U"
+                        else:
+                            req, rsp, ok = ("RC", 7, 3), ("RC", [True, False, True, False, False, False, False, False]), "B:101"
+                        verb = "call" if kind == "call" else "typed"
+                        fr = cligen.frame(proto, i, slave, mb.spec_rsp_pdu(rsp)).hex()
                         if sc == "prompt":
-                            ops.append("call %s r%s" % (mb.show_req(req), fr)); exp.append("OK:RHR:%d" % val)
+                            ops.append("%s %s r%s" % (verb, mb.show_req(req), fr)); exp.append(ok)
                         elif sc == "silent":
-                            ops.append("call %s s" % mb.show_req(req)); exp.append("T:TimedOut")
+                            ops.append("%s %s s" % (verb, mb.show_req(req))); exp.append("T:TimedOut")
                         elif sc == "slow_ok":
-                            ops.append("call %s w150:%s" % (mb.show_req(req), fr)); exp.append("OK:RHR:%d" % val)
+                            ops.append("%s %s w150:%s" % (verb, mb.show_req(req), fr)); exp.append(ok)
                         elif sc == "late":
-                            ops.append("call %s w1500:%s" % (mb.show_req(req), fr)); exp.append("T:TimedOut")
+                            ops.append("%s %s w1500:%s" % (verb, mb.show_req(req), fr)); exp.append("T:TimedOut")
                     if "late" in scen:
                         # the late reply is what the next call reads first
                         exp[1] = "late"; exp[2] = "any"
